@@ -270,7 +270,7 @@ fn dict_shape_run<K: El, V: El, const N: usize>(name: &str, universe: &[K], vals
             _ => { let ks: Vec<K> = m.keys().cloned().collect(); let c: Map<K, V, N> = m.iter().map(|(a, b)| (a.clone(), b.clone())).collect();
                    expect(ks.len() == r.len() && c == *m, "collect of the map's own entries differs from it".to_string()); }
         }
-        let bad = bad.or_else(|| map_agrees(&g.v, &r, universe).err());
+        let bad = bad.or_else(|| if N <= 16 || step % 8 == 0 { map_agrees(&g.v, &r, universe).err() } else if g.v.len() != r.len() { Some(format!("len {} but the reference holds {}", g.v.len(), r.len())) } else { None });
         if let Some(what) = bad { fault(format!("op=shapes SHAPE_DICT {} Map<_,_,{}> step {} (operation kind {}): {}", name, N, step, opn, what)); return; }
         if !g.ok() { fault(format!("op=shapes CANARY {} Map<_,_,{}>: memory next to the map was overwritten at step {}", name, N, step)); return; }
     }
@@ -345,7 +345,7 @@ fn set_shape_run<T: El, const N: usize, const M: usize>(name: &str, universe: &[
                 expect((*s == *s) && (other == other), "a set differs from itself".to_string());
             }
         }
-        let bad = bad.or_else(|| set_agrees(&g.v, &r, universe).err());
+        let bad = bad.or_else(|| if N <= 16 || step % 8 == 0 { set_agrees(&g.v, &r, universe).err() } else if g.v.len() != r.len() { Some(format!("len {} but the reference holds {}", g.v.len(), r.len())) } else { None });
         if let Some(what) = bad { fault(format!("op=shapes SHAPE_SET {} Set<_,{}> step {} (operation kind {}): {}", name, N, step, opn, what)); return; }
         if !g.ok() { fault(format!("op=shapes CANARY {} Set<_,{}>: memory next to the set was overwritten at step {}", name, N, step)); return; }
     }
@@ -381,6 +381,12 @@ fn shape_models() {
         dict_shape::<u32, u8, 130>("u32 -> u8, capacity 130", &big, &[1, 2], seed);
         set_shape::<u32, 72, 96>("u32, capacity 72 (other operand: capacity 96)", &big, seed);
         set_shape::<u32, 130, 70>("u32, capacity 130 (other operand: capacity 70)", &big, seed);
+        if seed == 1 {
+            // more slots than a byte can index
+            let huge: Vec<u32> = (0..340).collect();
+            dict_shape::<u32, u32, 300>("u32 -> u32, capacity 300", &huge, &[1, 2, 3], seed);
+            set_shape::<u32, 300, 280>("u32, capacity 300 (other operand: capacity 280)", &huge, seed);
+        }
     }
 }
 
@@ -426,6 +432,24 @@ fn serde_shapes() {
         if serde_json::from_str::<Map<u32, String, 2>>("[1, 2]").is_ok() || serde_json::from_str::<Set<u32, 2>>("{\"1\": 2}").is_ok() { fault("op=shapes SERDE_SHAPE input of the wrong shape was accepted".into()); }
         // (more entries than the capacity: the crate's insert panics, as C03 describes; neither outcome is demanded here)
         let _ = catch_unwind(|| { let _ = serde_json::from_str::<Set<u32, 2>>("[1, 2, 3]"); let _ = serde_json::from_str::<Map<u32, u32, 1>>("{\"1\": 2, \"3\": 4}"); });
+        // deserializing IN PLACE into a container that already holds something else yields the serialized content only
+        {
+            use serde::Deserialize;
+            let src: Map<u32, String, 4> = [(1u32, "a".to_string()), (2, "b".to_string())].into_iter().collect();
+            let txt = serde_json::to_string(&src).unwrap();
+            let mut target: Map<u32, String, 4> = [(7u32, "stale".to_string()), (1, "old".to_string())].into_iter().collect();
+            for round in 0..2 {
+                let r = Map::deserialize_in_place(&mut serde_json::Deserializer::from_str(&txt), &mut target);
+                if r.is_err() || target != src { fault(format!("op=shapes SERDE_SHAPE deserialize_in_place (round {}) of {} into a map that held other entries gives {:?}", round, txt, target)); }
+            }
+            let e: Map<u32, String, 4> = Map::new();
+            let r = Map::deserialize_in_place(&mut serde_json::Deserializer::from_str(&serde_json::to_string(&e).unwrap()), &mut target);
+            if r.is_err() || !target.is_empty() { fault("op=shapes SERDE_SHAPE deserialize_in_place of an empty map leaves the target non-empty".into()); }
+            let ssrc: Set<u32, 3> = Set::from([4, 5, 6]);
+            let mut st: Set<u32, 3> = Set::from([9, 9, 4]);
+            let r = Set::deserialize_in_place(&mut serde_json::Deserializer::from_str(&serde_json::to_string(&ssrc).unwrap()), &mut st);
+            if r.is_err() || st != ssrc { fault(format!("op=shapes SERDE_SHAPE Set::deserialize_in_place into a non-empty set gives {:?}", st)); }
+        }
         let nested: Map<u32, Set<u32, 3>, 2> = Map::from([(1, Set::from([1, 2, 3])), (2, Set::new())]);
         let txt = serde_json::to_string(&nested).unwrap();
         match serde_json::from_str::<Map<u32, Set<u32, 3>, 2>>(&txt) { Ok(b) if b == nested => {}, other => fault(format!("op=shapes SERDE_SHAPE nested {} reads back as {:?}", txt, other)) }
@@ -472,9 +496,12 @@ fn fmt_shapes() {
         let d: Map<u8, f32, 3> = [(1, 1.5), (2, 2.25)].into_iter().collect();
         let want = format!("{{{}}}", d.iter().map(|(k, v)| format!("{}: {}", k, v)).collect::<Vec<_>>().join(", "));
         if format!("{}", d) != want { fault(format!("op=shapes FMT_SHAPE Display of a Map gives {:?}, expected {:?}", format!("{}", d), want)); }
+        // the alternate and sign flags do not change the shape of Display (entries joined by ", " on one line)
+        if format!("{:#}", d) != want || format!("{:+}", d).replace('+', "") != want { fault(format!("op=shapes FMT_SHAPE Display of a Map under {{:#}} / {{:+}} gives {:?} / {:?}, the plain form is {:?}", format!("{:#}", d), format!("{:+}", d), want)); }
         let ds: Set<&str, 3> = ["p", "q"].into_iter().collect();
         let want = format!("{{{}}}", ds.iter().map(|k| format!("{}", k)).collect::<Vec<_>>().join(", "));
         if format!("{}", ds) != want { fault(format!("op=shapes FMT_SHAPE Display of a Set gives {:?}, expected {:?}", format!("{}", ds), want)); }
+        if format!("{:#}", ds) != want { fault(format!("op=shapes FMT_SHAPE Display of a Set under {{:#}} gives {:?}, the plain form is {:?}", format!("{:#}", ds), want)); }
         // a sink that fails after k bytes: formatting reports the error, and what was written is a prefix
         struct Short { out: String, room: usize }
         impl FmtWrite for Short {
@@ -499,6 +526,205 @@ fn fmt_shapes() {
     if r.is_err() { fault("op=shapes FMT_SHAPE the formatting scenario panicked".into()); }
 }
 
+// ---------------------------------------------------------------------------------------------
+// Lookups through a borrowed form that is a different (unsized) type: &str for String, &Path for
+// PathBuf (equal paths of different byte length), &[u8] for Vec<u8>, &u32 for Box<u32>; needles
+// that alias stored data without being equal to it; element types whose == is not reflexive.
+fn borrow_shapes() {
+    use std::borrow::Borrow;
+    use std::path::{Path, PathBuf};
+    fn all_lookups<K: Eq + std::fmt::Debug + Borrow<Q>, Q: ?Sized + PartialEq + std::fmt::Debug, const N: usize>(what: &str, m: &mut Map<K, u32, N>, q: &Q, want: Option<u32>) {
+        let found = want.is_some();
+        let mut bad = Vec::new();
+        if m.get(q).copied() != want { bad.push(format!("get = {:?}", m.get(q))); }
+        if m.contains_key(q) != found { bad.push(format!("contains_key = {}", m.contains_key(q))); }
+        if m.get_key_value(q).map(|(_, v)| *v) != want { bad.push(format!("get_key_value = {:?}", m.get_key_value(q))); }
+        if m.get_mut(q).map(|v| *v) != want { bad.push("get_mut disagrees".to_string()); }
+        let idx = catch_unwind(AssertUnwindSafe(|| m[q]));
+        if idx.ok() != want { bad.push("indexing disagrees".to_string()); }
+        if !bad.is_empty() { fault(format!("op=shapes SHAPE_BORROW {}: lookup of {:?} through the borrowed form should give {:?}: {}", what, q, want, bad.join("; "))); }
+    }
+    let r = catch_unwind(|| {
+        let mut m: Map<PathBuf, u32, 4> = Map::new();
+        m.insert(PathBuf::from("usr/lib"), 1); m.insert(PathBuf::from("/etc"), 2); m.insert(PathBuf::from("a/b/c"), 3);
+        for (q, want) in [("usr/lib", Some(1)), ("usr//lib", Some(1)), ("usr/lib/", Some(1)), ("usr/./lib", Some(1)), ("/etc", Some(2)), ("/etc/", Some(2)), ("a/b/c", Some(3)), ("a//b/./c/", Some(3)), ("usr", None), ("usr/lib/x", None), ("", None)] {
+            all_lookups("Map<PathBuf,u32,4> by &Path", &mut m, Path::new(q), want);
+        }
+        if m.remove(Path::new("usr//lib")) != Some(1) || m.remove_entry(Path::new("a/b//c")).map(|p| p.1) != Some(3) || m.len() != 1 { fault("op=shapes SHAPE_BORROW Map<PathBuf,u32,4>: remove / remove_entry through an equal &Path of different length failed".into()); }
+        let mut ps: Set<PathBuf, 3> = Set::new(); ps.insert(PathBuf::from("x/y"));
+        if !ps.contains(Path::new("x//y")) || ps.get(Path::new("x/y/")).is_none() || !ps.remove(Path::new("x/./y")) { fault("op=shapes SHAPE_BORROW Set<PathBuf,3>: contains / get / remove through an equal &Path of different length failed".into()); }
+
+        let mut sm: Map<String, u32, 5> = Map::new();
+        for (i, w) in ["car", "cart", "", "dog"].iter().enumerate() { sm.insert(w.to_string(), i as u32); }
+        let words: Vec<String> = sm.keys().cloned().collect();
+        for w in words.iter() { for n in 0..=w.len() { let q = &w[..n]; let want = words.iter().position(|x| x == q).map(|i| sm[words[i].as_str()]); all_lookups("Map<String,u32,5> by &str", &mut sm, q, want); } }
+        // needles that point INTO the stored keys (same address, shorter length)
+        let stored: Vec<(*const u8, usize)> = sm.keys().map(|k| (k.as_ptr(), k.len())).collect();
+        for (p, len) in stored { for n in 0..=len {
+            let q: &str = unsafe { std::str::from_utf8_unchecked(std::slice::from_raw_parts(p, n)) };
+            let want = ["car", "cart", "", "dog"].iter().position(|x| *x == q).map(|i| i as u32);
+            if sm.get(q).copied() != want || sm.contains_key(q) != want.is_some() || sm.get_key_value(q).map(|(k, _)| k.as_str()) != want.map(|_| q) {
+                fault(format!("op=shapes SHAPE_BORROW Map<String,u32,5>: a needle {:?} aliasing a stored key's buffer is looked up wrongly (get = {:?}, expected {:?})", q, sm.get(q), want)); }
+        } }
+        let mut ss: Set<Vec<u8>, 3> = Set::new(); ss.insert(vec![1, 2, 3]); ss.insert(vec![9]);
+        let first: &Vec<u8> = ss.iter().next().unwrap();
+        let (p, _) = (first.as_ptr(), first.len());
+        for n in 0..=3usize { let q: &[u8] = unsafe { std::slice::from_raw_parts(p, n) }; let want = n == 3;
+            if ss.contains(q) != want || ss.get(q).is_some() != want { fault(format!("op=shapes SHAPE_BORROW Set<Vec<u8>,3>: a needle {:?} aliasing a member's buffer: contains = {}, get = {:?}, expected present = {}", q, ss.contains(q), ss.get(q), want)); } }
+        let mut bm: Map<Box<u32>, u32, 3> = Map::new(); bm.insert(Box::new(7), 70); bm.insert(Box::new(8), 80);
+        all_lookups("Map<Box<u32>,u32,3> by &u32", &mut bm, &7u32, Some(70)); all_lookups("Map<Box<u32>,u32,3> by &u32", &mut bm, &9u32, None);
+
+        // == that is not reflexive: a lookup by a reference to the stored element itself must still ask ==
+        let mut fs: Set<f64, 4> = Set::new(); fs.insert(1.5); fs.insert(f64::NAN); fs.insert(-0.0);
+        let nan_ref: &f64 = fs.iter().find(|x| x.is_nan()).unwrap();
+        if fs.contains(nan_ref) || fs.get(nan_ref).is_some() || fs.contains(&f64::NAN) { fault("op=shapes SHAPE_BORROW Set<f64,4>: a NaN member is found although NaN != NaN (lookup by a reference to the stored element)".into()); }
+        if !fs.contains(&0.0) || !fs.contains(&1.5) { fault("op=shapes SHAPE_BORROW Set<f64,4>: 0.0 == -0.0 and 1.5 must be found".into()); }
+        let mut fm: Map<u8, f64, 3> = Map::new(); fm.insert(1, f64::NAN); fm.insert(2, 2.0);
+        let fc = fm.clone();
+        #[allow(clippy::eq_op)]
+        if fm == fm || fm == fc || fc == fm { fault("op=shapes SHAPE_BORROW Map<u8,f64,3> holding a NaN value compares equal (to itself or to its clone) although NaN != NaN".into()); }
+        let mut gm: Map<u8, f64, 3> = Map::new(); gm.insert(2, 2.0);
+        let gc = gm.clone();
+        #[allow(clippy::eq_op)]
+        if !(gm == gm) || gm != gc { fault("op=shapes SHAPE_BORROW Map<u8,f64,3> without NaN does not compare equal to itself / its clone".into()); }
+        // a capacity-0 map placed directly in front of another map's storage is not that map
+        #[repr(C)] struct Pair2 { a: Map<u64, u64, 0>, b: Map<u64, u64, 2> }
+        let mut p2 = Pair2 { a: Map::new(), b: Map::new() }; p2.b.insert(1, 1);
+        if p2.a == p2.b || p2.b == p2.a { fault("op=shapes SHAPE_BORROW an empty Map<u64,u64,0> compares equal to a non-empty Map<u64,u64,2> stored behind it".into()); }
+    });
+    if r.is_err() { fault("op=shapes SHAPE_BORROW the borrowed-lookup scenario panicked".into()); }
+}
+
+// stored-key identity with key types WITHOUT drop glue (Copy), where equal keys are distinguishable
+fn identity_shapes() {
+    #[derive(Clone, Copy, Debug)] struct Tag { id: u8, rev: u8 }
+    impl PartialEq for Tag { fn eq(&self, o: &Tag) -> bool { self.id == o.id } }
+    impl Eq for Tag {}
+    let r = catch_unwind(|| {
+        let t = |id, rev| Tag { id, rev };
+        let mut m: Map<Tag, u8, 3> = Map::new();
+        m.insert(t(1, 0), 10); m.insert(t(2, 0), 20); m.insert(t(3, 0), 30);      // full
+        let rev_of = |m: &Map<Tag, u8, 3>, id: u8| m.get_key_value(&t(id, 9)).map(|(k, _)| k.rev);
+        m.insert(t(1, 1), 11);
+        if rev_of(&m, 1) != Some(0) || m[&t(1, 9)] != 11 { fault(format!("op=shapes KEY_IDENTITY Map<Copy key>::insert of an equal key: stored key revision {:?} (must stay 0), value {}", rev_of(&m, 1), m[&t(1, 9)])); }
+        m.checked_insert(t(2, 1), 21);
+        if rev_of(&m, 2) != Some(0) { fault(format!("op=shapes KEY_IDENTITY checked_insert of an equal key on a full map: stored key revision {:?} (must stay 0)", rev_of(&m, 2))); }
+        *m.entry(t(3, 1)).or_insert(0) += 1;
+        if rev_of(&m, 3) != Some(0) || m.keys().any(|k| k.rev != 0) { fault("op=shapes KEY_IDENTITY the entry API replaced a stored Copy key".into()); }
+        let old = m.insert_key_value(t(1, 2), 12);
+        if old.map(|(k, v)| (k.rev, v)) != Some((0, 11)) || rev_of(&m, 1) != Some(2) { fault(format!("op=shapes KEY_IDENTITY insert_key_value must store the supplied key and hand back the old pair: got {:?}, stored revision {:?}", old, rev_of(&m, 1))); }
+        if m.remove_entry(&t(1, 7)).map(|(k, _)| k.rev) != Some(2) { fault("op=shapes KEY_IDENTITY remove_entry does not hand back the stored key object".into()); }
+        let mut s: Set<Tag, 2> = Set::new(); s.insert(t(5, 0)); s.insert(t(6, 0));
+        if s.insert(t(5, 1)) || s.get(&t(5, 9)).map(|k| k.rev) != Some(0) { fault("op=shapes KEY_IDENTITY Set<Copy>::insert of a member replaced the stored element".into()); }
+        if s.replace(t(6, 1)).map(|k| k.rev) != Some(0) || s.get(&t(6, 9)).map(|k| k.rev) != Some(1) || s.take(&t(6, 9)).map(|k| k.rev) != Some(1) { fault("op=shapes KEY_IDENTITY Set<Copy>::replace / take do not swap / expose the stored element".into()); }
+        let c: Map<Tag, u8, 4> = [(t(1, 0), 1), (t(2, 0), 2), (t(1, 1), 3), (t(2, 1), 4), (t(1, 2), 5)].into_iter().collect();
+        if c.get_key_value(&t(1, 9)).map(|(k, v)| (k.rev, *v)) != Some((0, 5)) || c.get_key_value(&t(2, 9)).map(|(k, v)| (k.rev, *v)) != Some((0, 4)) { fault("op=shapes KEY_IDENTITY collect: the first key object must be kept and the last value win".into()); }
+        let a: Map<Tag, u8, 4> = Map::from([(t(1, 0), 1), (t(1, 1), 2), (t(2, 0), 3), (t(2, 1), 4)]);
+        if a.iter().map(|(k, v)| (k.id, k.rev, *v)).collect::<Vec<_>>() != vec![(1, 0, 2), (2, 0, 4)] { fault(format!("op=shapes KEY_IDENTITY Map::from(array) with repeats gives {:?}", a)); }
+        let sa: Set<Tag, 4> = Set::from([t(1, 0), t(1, 1), t(2, 0), t(2, 1)]);
+        if sa.iter().map(|k| (k.id, k.rev)).collect::<Vec<_>>() != vec![(1, 0), (2, 0)] { fault(format!("op=shapes KEY_IDENTITY Set::from(array) with repeats gives {:?}", sa)); }
+        let mut f0: Map<f64, u8, 2> = Map::new(); f0.insert(0.0, 1); f0.insert(-0.0, 2);
+        if f0.len() != 1 || !f0.keys().next().unwrap().is_sign_positive() || f0[&0.0] != 2 { fault("op=shapes KEY_IDENTITY Map<f64,_>: inserting -0.0 over 0.0 must keep the stored +0.0 and replace the value".into()); }
+    });
+    if r.is_err() { fault("op=shapes KEY_IDENTITY the key-identity scenario panicked".into()); }
+}
+
+// get_disjoint_mut with many keys (more than a machine word has bits) and with slots beyond 255
+fn disjoint_wide() {
+    let r = catch_unwind(|| {
+        let mut m: Map<u32, u32, 300> = Map::new();
+        for i in 0..300u32 { m.insert(i, 10_000 + i); }
+        let want = |k: u32| if k < 300 { Some(10_000 + k) } else { None };
+        let mut check = |name: &str, ks: &[u32]| {
+            macro_rules! go { ($n:literal) => {{
+                let arr: [&u32; $n] = std::array::from_fn(|i| &ks[i]);
+                let base = &m as *const _ as usize;
+                let got = m.get_disjoint_mut(arr);
+                let vals: Vec<Option<u32>> = got.iter().map(|o| o.as_ref().map(|v| **v)).collect();
+                let addrs: Vec<usize> = got.iter().flatten().map(|v| &**v as *const u32 as usize).collect();
+                let mut sorted = addrs.clone(); sorted.sort(); sorted.dedup();
+                if vals != ks.iter().map(|k| want(*k)).collect::<Vec<_>>() { fault(format!("op=shapes SHAPE_DISJOINT {}: get_disjoint_mut of {} keys on a Map<u32,u32,300> disagrees with get per key", name, $n)); }
+                if sorted.len() != addrs.len() || addrs.iter().any(|a| *a < base || *a >= base + std::mem::size_of::<Map<u32, u32, 300>>()) { fault(format!("op=shapes SHAPE_DISJOINT {}: references alias or lie outside the map", name)); }
+            }}; }
+            match ks.len() { 2 => go!(2), 3 => go!(3), 65 => go!(65), 80 => go!(80), _ => unreachable!() }
+        };
+        check("slots beyond 255", &[299, 1000]); check("slots beyond 255", &[10, 266]); check("slots beyond 255", &[290, 34, 256]);
+        let k65: Vec<u32> = (0..65).map(|i| (i * 4) % 300).collect(); check("65 keys", &k65);
+        let k80: Vec<u32> = (0..80).map(|i| if i % 7 == 3 { 5000 + i } else { 299 - 3 * i }).collect(); check("80 keys with misses", &k80);
+        for k in [34u32, 290, 256, 0, 255] { if m.get_mut(&k).map(|v| *v) != want(k) { fault("op=shapes SHAPE_DISJOINT get_mut disagrees".into()); } }
+    });
+    if r.is_err() { fault("op=shapes SHAPE_DISJOINT get_disjoint_mut panicked on pairwise different keys".into()); }
+}
+
+// every element destroyed exactly once, and the provided Iterator methods (which an iterator may
+// override) agree with stepping by next(), for every fill level, amount consumed and method
+thread_local! { static LEDGER: std::cell::RefCell<Vec<u32>> = const { std::cell::RefCell::new(Vec::new()) }; }
+#[derive(Debug, PartialEq, Eq)] struct D(u32);
+impl Drop for D { fn drop(&mut self) { LEDGER.with(|l| { let mut l = l.borrow_mut(); let i = self.0 as usize; if l.len() <= i { l.resize(i + 1, 0); } l[i] += 1; }); } }
+fn ledger_reset() { LEDGER.with(|l| l.borrow_mut().clear()); }
+fn ledger_ok(n: u32, what: &str) {
+    let bad: Vec<(u32, u32)> = LEDGER.with(|l| { let l = l.borrow(); (0..n).map(|i| (i, l.get(i as usize).copied().unwrap_or(0))).filter(|(_, c)| *c != 1).collect() });
+    if !bad.is_empty() { fault(format!("op=shapes DROP_LEDGER {}: (element, times destroyed) {:?} (each must be destroyed exactly once)", what, bad)); }
+}
+fn provided_methods() {
+    let r = catch_unwind(|| {
+        for len in 0..=5u32 { for taken in 0..=len { for method in 0..9 { for kind in 0..5 {
+            ledger_reset();
+            let what = format!("{} of len {} after {} next() calls, then method #{} (0 last, 1 count, 2 nth(1), 3 fold, 4 for_each, 5 collect, 6 by_ref().take(1), 7 drop, 8 min_by_key)", ["Map::into_iter", "Map::into_keys", "Map::into_values", "Set::into_iter", "Map::drain"][kind], len, taken, method);
+            // ids: keys 2i, values 2i+1 (sets: elements i)
+            macro_rules! drive { ($it:expr, $n:expr) => {{
+                let mut it = $it;
+                let mut seen = Vec::new();
+                for _ in 0..taken { seen.push(it.next()); }
+                let left = (len - taken) as usize;
+                if it.len() != left || it.size_hint() != (left, Some(left)) { fault(format!("op=shapes PROVIDED {}: len() {} size_hint {:?}, {} items are left", what, it.len(), it.size_hint(), left)); }
+                match method {
+                    0 => { let l = it.last(); if l.is_some() != (left > 0) { fault(format!("op=shapes PROVIDED {}: last() is_some = {}", what, l.is_some())); } }
+                    1 => { let c = it.count(); if c != left { fault(format!("op=shapes PROVIDED {}: count() = {}", what, c)); } }
+                    2 => { let x = it.nth(1); if x.is_some() != (left > 1) { fault(format!("op=shapes PROVIDED {}: nth(1) is_some = {}", what, x.is_some())); } let rest = it.count(); if rest != left.saturating_sub(2) { fault(format!("op=shapes PROVIDED {}: {} items after nth(1)", what, rest)); } }
+                    3 => { let c = it.fold(0usize, |a, _| a + 1); if c != left { fault(format!("op=shapes PROVIDED {}: fold visited {}", what, c)); } }
+                    4 => { let mut c = 0usize; it.for_each(|_| c += 1); if c != left { fault(format!("op=shapes PROVIDED {}: for_each visited {}", what, c)); } }
+                    5 => { let v: Vec<_> = it.collect(); if v.len() != left { fault(format!("op=shapes PROVIDED {}: collect gave {}", what, v.len())); } }
+                    6 => { let v: Vec<_> = it.by_ref().take(1).collect(); if v.len() != left.min(1) { fault(format!("op=shapes PROVIDED {}: by_ref().take(1) gave {}", what, v.len())); } if it.len() != left.saturating_sub(1) { fault(format!("op=shapes PROVIDED {}: len() after by_ref().take(1) = {}", what, it.len())); } }
+                    7 => { drop(it); }
+                    _ => { let x = it.min_by_key(|_| 0u8); if x.is_some() != (left > 0) { fault(format!("op=shapes PROVIDED {}: min_by_key is_some = {}", what, x.is_some())); } }
+                }
+                drop(seen);
+                $n
+            }}; }
+            let mk_map = || { let mut m: Map<D, D, 5> = Map::new(); for i in 0..len { m.insert(D(2 * i), D(2 * i + 1)); } m };
+            let mk_set = || { let mut s: Set<D, 5> = Set::new(); for i in 0..len { s.insert(D(i)); } s };
+            let n = match kind {
+                0 => drive!(mk_map().into_iter(), 2 * len),
+                1 => drive!(mk_map().into_keys(), 2 * len),
+                2 => drive!(mk_map().into_values(), 2 * len),
+                3 => drive!(mk_set().into_iter(), len),
+                _ => { let mut m = mk_map(); let n = drive!(m.drain(), 2 * len); if !m.is_empty() { fault(format!("op=shapes PROVIDED {}: the map is not empty after the drain", what)); } m.insert(D(2 * len), D(2 * len + 1)); drop(m); n + 2 }
+            };
+            ledger_ok(n, &what);
+        } } } }
+        // borrowing iterators: every provided method agrees with next()-stepping, in order
+        let mut m: Map<u32, u32, 6> = Map::new(); for i in [1u32, 5, 3, 4, 9] { m.insert(i, i * 10); } m.remove(&5);
+        let order: Vec<(u32, u32)> = { let mut it = m.iter(); let mut v = Vec::new(); while let Some((k, x)) = it.next() { v.push((*k, *x)); } v };
+        let mut fe = Vec::new(); m.iter().for_each(|(k, x)| fe.push((*k, *x)));
+        let fo: Vec<(u32, u32)> = m.iter().fold(Vec::new(), |mut a, (k, x)| { a.push((*k, *x)); a });
+        let (uk, uv): (Vec<u32>, Vec<u32>) = m.iter().map(|(k, x)| (*k, *x)).unzip();
+        if fe != order || fo != order || m.iter().last().map(|(k, x)| (*k, *x)) != order.last().copied() || uk != order.iter().map(|p| p.0).collect::<Vec<_>>() || uv != order.iter().map(|p| p.1).collect::<Vec<_>>() {
+            fault(format!("op=shapes PROVIDED Map::iter(): for_each / fold / last / unzip visit {:?} / {:?}, next() yields {:?}", fe, fo, order)); }
+        let ks: Vec<u32> = m.keys().fold(Vec::new(), |mut a, k| { a.push(*k); a }); let vs: Vec<u32> = m.values().fold(Vec::new(), |mut a, x| { a.push(*x); a });
+        if ks != order.iter().map(|p| p.0).collect::<Vec<_>>() || vs != order.iter().map(|p| p.1).collect::<Vec<_>>() || m.keys().last() != order.last().map(|p| &p.0) || m.values().last() != order.last().map(|p| &p.1) {
+            fault(format!("op=shapes PROVIDED Map::keys()/values(): fold / last visit {:?} / {:?}, next() yields {:?}", ks, vs, order)); }
+        let mut half = m.iter(); half.next(); let c = half.clone(); let rest_c: Vec<u32> = c.fold(Vec::new(), |mut a, (k, _)| { a.push(*k); a }); let rest_o: Vec<u32> = half.map(|(k, _)| *k).collect();
+        if rest_c != rest_o { fault(format!("op=shapes PROVIDED a cloned Map::iter() folded mid-way visits {:?}, the original stepped yields {:?}", rest_c, rest_o)); }
+        let mut wm: Vec<u32> = Vec::new(); m.iter_mut().for_each(|(k, x)| { *x += 1; wm.push(*k); }); let vm: Vec<u32> = m.values_mut().fold(Vec::new(), |mut a, x| { a.push(*x); a });
+        if wm != order.iter().map(|p| p.0).collect::<Vec<_>>() || vm != order.iter().map(|p| p.1 + 1).collect::<Vec<_>>() { fault("op=shapes PROVIDED Map::iter_mut()/values_mut(): for_each / fold do not visit in next() order".into()); }
+        let st: Set<u32, 5> = [7u32, 2, 8, 4].into_iter().collect(); let so: Vec<u32> = { let mut it = st.iter(); let mut v = Vec::new(); while let Some(x) = it.next() { v.push(*x); } v };
+        let sf: Vec<u32> = st.iter().fold(Vec::new(), |mut a, x| { a.push(*x); a });
+        if sf != so || st.iter().last() != so.last() || st.iter().min() != so.iter().min() || st.iter().max() != so.iter().max() || st.iter().nth(2) != so.get(2) { fault(format!("op=shapes PROVIDED Set::iter(): fold / last / min / max / nth disagree with next(): {:?} vs {:?}", sf, so)); }
+    });
+    if r.is_err() { fault("op=shapes PROVIDED the provided-method scenario panicked".into()); }
+}
+
 pub fn run() {
     clone_counts::<1>(); clone_counts::<3>(); clone_counts::<8>();
     overflow_shape::<u8, (), 0>("u8 -> () (ZST value)", &[], 1, ());
@@ -513,4 +739,8 @@ pub fn run() {
     shape_models();
     serde_shapes();
     fmt_shapes();
+    borrow_shapes();
+    identity_shapes();
+    disjoint_wide();
+    provided_methods();
 }
